@@ -426,7 +426,29 @@ def reelect_phase(cl, rng, trace, state, variant=None):
     L = leader_of(voters)
     if L is None or len(voters) < 3:
         return
-    variant = variant or rng.choice(['bare', 'overwrite'])
+    variant = variant or rng.choice(['bare', 'overwrite'] + (['fresh', 'fresh'] if cl.cfg.get('membership') else []))
+    if variant == 'fresh':
+        # everything is replicated and applied; another node takes over and is asked for a membership change before it
+        # has replicated (let alone committed) the no-op of its own term
+        ids_ = sorted(n for n in N if N[n].alive)
+        for r in range(3):
+            for n in ids_:
+                do(('Tick', n, 'h'))
+            deliver_within(set(ids_), rounds=6)
+        X = rng.choice([v for v in voters if v != L])
+        do(('Tick', X, 'j'))
+        for _ in range(4):
+            for m in voters:
+                if m != X:
+                    if cl.net.chan.get((X, m)) and not N[X].obj._isLeader():
+                        do(('Deliver', X, m))
+                    if cl.net.chan.get((m, X)) and not N[X].obj._isLeader():
+                        do(('Deliver', m, X))
+        if N[X].obj._isLeader() and state.get('memb_targets'):
+            state['ncmd'] += 1
+            do(('Submit', X, 'm%d' % state['ncmd'], {'kind': rng.choice(['add', 'rem']), 'x': rng.choice([t for t in state['memb_targets'] if t != X])}))
+            do(('Tick', X, 'z'))
+        return
     others = [v for v in voters if v != L]
     rng.shuffle(others)
     nmin = rng.randint(0, (len(voters) - 1) // 2 - 1) if len(voters) > 3 else 0
@@ -500,6 +522,11 @@ def reelect_phase(cl, rng, trace, state, variant=None):
             break
     if not N[L].obj._isLeader():
         return
+    # a membership request reaches the fresh leader before it has committed anything of its own term
+    if cl.cfg.get('membership') and state.get('memb_targets'):
+        state['ncmd'] += 1
+        do(('Submit', L, 'm%d' % state['ncmd'], {'kind': rng.choice(['add', 'rem']), 'x': rng.choice(state['memb_targets'])}))
+        do(('Tick', L, 'z'))
     # acknowledgements reach the new leader one follower at a time, with a commit scan after each
     fol = [m for m in rest if m != L]
     rng.shuffle(fol)
